@@ -293,6 +293,18 @@ func fileKeys() []fileKey {
 				add(pk, true)
 			}
 		}
+		// valid keys that carry other optional members: `use` is not part of the acceptance rule, so a key
+		// marked "enc" (or without use) counts like any other key of the set
+		for i, p := range keys.Pool() {
+			if p.PrivSet == nil || i%2 == 1 {
+				continue
+			}
+			k, _ := p.PubSet.Key(0)
+			k, _ = k.Clone()
+			must(k.Set(jwk.KeyIDKey, fmt.Sprintf("encuse-%d", i)))
+			must(k.Set(jwk.KeyUsageKey, jwk.ForEncryption))
+			add(k, true)
+		}
 		// invalid ones: HS512 oct, RS256 RSA, no alg, ES256 EC
 		oct, _ := jwk.FromRaw([]byte("0123456789abcdef0123456789abcdef"))
 		must(oct.Set(jwk.AlgorithmKey, jwa.HS512))
